@@ -20,8 +20,27 @@ from ..common import *
 HEADER = 'From Coq Require Import String.\nFrom GV.Model Require Import Rulegen.\n'
 TYPES = ['AWS::S3::Bucket', 'AWS::EC2::Instance', 'AWS::IAM::Role']
 PROPS = ['Name', 'Size', 'Enabled', 'Zone', 'Tags', 'Policy', 'Ports']
-PLAIN = ['a', 'prod', 'us-west-2b', 'x y', 'AWS', 'v1.2', 'héllo', '10', 'true']
-TRICKY = [' padded ', 'quote"inside', 'back\\slash', "single'quote", 'tab\there', '']
+PLAIN = ['a', 'prod', 'us-west-2b', 'x y', 'AWS', 'v1.2', 'héllo', '10', 'true', 'back\\slash', '^\\d+$', 'C:\\dir\\file', "single'quote", 'tab\there', '', 'null', '8080', '1.5', '[1]', '{}', '# x']
+TRICKY = [' padded ', 'quote"inside', 'trailing\\', ' lead', 'trail ', '"']
+
+
+def problematic(v):
+    """the strings of the recorded finding: surrounding blanks (trimmed in the rule only), a double quote or a final backslash
+    (printed without escaping)"""
+    return isinstance(v, str) and (v != v.strip() or '"' in v or v.endswith('\\') or '\n' in v)
+
+
+def string_finding_applies(tpl, failed_rules=None):
+    """is every failing rule (or, with None, the template as a whole) explained by a problematic string of that type?"""
+    by_type = {}
+    for r in tpl['Resources'].values():
+        if isinstance(r.get('Type'), str) and isinstance(r.get('Properties'), dict):
+            if any(problematic(v) for v in r['Properties'].values()):
+                by_type[r['Type'].replace('::', '_').lower()] = True
+    if failed_rules is None:
+        return bool(by_type)
+    return bool(failed_rules) and all(by_type.get(f) for f in failed_rules)
+
 
 
 def gen_value(rng, kind, tricky):
@@ -160,6 +179,10 @@ def run_templates(ctx, n):
         if not sc['rules'].strip():
             if types_with_props and 'Parsing error' not in sc['stderr']:
                 ctx.failing('rulegen prints nothing for a template with properties', info, found=True)
+            elif types_with_props:
+                # its own parse check rejected the output: the recorded finding when a string needs escaping, a violation otherwise
+                ctx.failing('rulegen emits nothing: its own output does not parse (%s)' % sc['stderr'][:120],
+                            dict(info, **{'class': 'rulegen-string-rendering' if string_finding_applies(sc['tpl']) else 'rulegen'}), found=True)
             stats['empty_output'] += 1
             continue
         a = sc.get('ast')
@@ -206,12 +229,16 @@ def run_templates(ctx, n):
         except Exception:
             if what == 'self':
                 cls = {'nonuniform': 'rulegen-nonuniform-properties', 'tricky': 'rulegen-string-rendering', 'mixed': 'rulegen-mixed-list-scalar'}.get(sc['kind'], 'rulegen')
+                if cls == 'rulegen-string-rendering' and not string_finding_applies(sc['tpl']):
+                    cls = 'rulegen'
                 ctx.failing('validating the template against its generated rules fails with status %s: %s' % (code, se.decode('utf-8', 'replace')[:160]), dict(info, **{'class': cls}), found=True)
             continue
         failed = [r['Rule']['name'] for r in rep['not_compliant'] if 'Rule' in r]
         if what == 'self':
             if failed or rep['not_applicable']:
                 cls = {'nonuniform': 'rulegen-nonuniform-properties', 'tricky': 'rulegen-string-rendering', 'mixed': 'rulegen-mixed-list-scalar'}.get(sc['kind'], 'rulegen')
+                if cls == 'rulegen-string-rendering' and not string_finding_applies(sc['tpl'], failed + list(rep['not_applicable'])):
+                    cls = 'rulegen'
                 ctx.failing('the template does not PASS the rules generated from it: FAIL %s, SKIP %s' % (failed, rep['not_applicable']), dict(info, **{'class': cls}), found=True)
             else:
                 npass += 1
